@@ -172,6 +172,7 @@ pub fn info_for(g: &Generated, outcome: &str, nontrivial: bool) -> Info {
         sample: Some(json!({"src": g.case.src, "kernel": g.case.kernel, "stack_top_first": g.case.stack, "advice": g.case.adv, "expect": expect_to_json(&g.expect)})),
         evals: 1,
         extra_nontrivial: vec![],
+        soft: vec![],
     }
 }
 
